@@ -134,15 +134,14 @@ import GqlProofs.Validate.OverlapIds
   `parsed_numLiteralsOK` — the Float half included, `Gql.EndToEnd.float_lexeme_agree` —,
   `parsed_leavesWellFormed`, `parsed_usePosDistinct`: `GqlProofs/EndToEnd/Parsed.lean`), every
   hypothesis about the schema alone is an invariant of loader output (`loaded_*`,
-  `GqlProofs/EndToEnd/Loaded.lean`, modulo the recorded non-object-root finding
-  `rootTypesAreObjects`); `C08_parsed_loaded_iff_spec` is the capstone over a SOURCE TEXT and a
+  `GqlProofs/EndToEnd/Loaded.lean`; `rootTypesAreObjects` included since the repair of the root kinds);
+  `C08_parsed_loaded_iff_spec` is the capstone over a SOURCE TEXT and a
   loaded schema, with only the semantic side conditions left (`C08SemanticHyps`);
   `C08_sources_iff_spec` takes the schema as source texts too (`ParseSchemas` → `load`).
   `Spec.wellParented` is NOT an invariant of parser / loader output but a consequence of EITHER side of
   the equivalence (`C08_wellParented_of_spec`, `C08_wellParented_of_rules`, `C08_wellParented_of_valid`;
   `GqlProofs/EndToEnd/WellParented.lean`), so `C08_sources_iff_spec_wp` / `C08_parsed_loaded_iff_spec_wp`
-  need only `C08ResidualHyps` (selectRoot, rootKeys, defaultedLocations), the prelude and the
-  non-object-root finding.
+  need only `C08ResidualHyps` (selectRoot, rootKeys, defaultedLocations) and the prelude.
 
   NOT finished (the full statement, kept as the goal):
     C08_verdict : Closed s → (validate defaultRules s d = .ok [] ↔ Spec.specValid s d = true)
@@ -954,7 +953,8 @@ theorem C08_SingleFieldSubscriptions (s : Schema) (d : QueryDoc)
   exact singleFieldSubscriptions_iff s d evs hw (opLinked_walkDoc s.view d evs hw) hschema hdef htc hne hcons
 
 /-- the same for a schema with the loader's invariants (`C07_loaded_closed`, `C07_relations_exact`)
-    whose root operation types are object types (`Spec.rootTypesAreObjects`: not enforced by the loader) -/
+    whose root operation types are object types (`Spec.rootTypesAreObjects`: an invariant of `load` since the
+    repair of the root kinds, `C07_root_types_are_objects`) -/
 theorem C08_SingleFieldSubscriptions_loaded (s : Schema) (d : QueryDoc)
     (hc : Gql.Spec.Closed s) (hr : Gql.Spec.RelationsExact s) (hroots : Gql.Spec.rootTypesAreObjects s = true)
     (hdef : Spec.fragmentSpreadTargetDefined d = true)
@@ -1696,11 +1696,10 @@ theorem C08Hyps_of_loaded {s : Schema} {d : QueryDoc} (L : LoadedHyps s) (D : C0
 
 /-- **the C08 capstone for a loaded schema**: the schema-side hypotheses are discharged by the loader -/
 theorem C08_loaded_default_rules_iff_spec_partial {sd : SchemaDoc} {s : Schema} (h : load sd = .ok s)
-    (hp : PreludeDeclared sd) (hks : KindFieldless .scalar sd) (hke : KindFieldless .enum sd) (hn : NamesNonEmpty sd)
-    (hroots : Gql.Spec.rootTypesAreObjects s = true) (d : QueryDoc) (D : C08DocHyps s d) :
+    (hp : PreludeDeclared sd) (hks : KindFieldless .scalar sd) (hke : KindFieldless .enum sd) (hn : NamesNonEmpty sd) (d : QueryDoc) (D : C08DocHyps s d) :
     validate c08Rules s d = .ok [] ↔
       ((Gql.Validate.Spec.specVerdicts s d).filter (fun p => !c08Uncovered.contains p.1)).all (·.2) = true :=
-  C08_default_rules_iff_spec_partial s d (C08Hyps_of_loaded (loaded_hyps h hp hks hke hn hroots) D)
+  C08_default_rules_iff_spec_partial s d (C08Hyps_of_loaded (loaded_hyps h hp hks hke hn) D)
 
 
 /-- The hypotheses of the capstone that are neither invariants of parser output nor of loader output
@@ -1739,16 +1738,15 @@ theorem C08Hyps_of_parsed {L : Nat} {inp : Bytes} {d : QueryDoc} (hp : Parser.pa
       shape the schema parser produces (`KindFieldless`: scalar / enum definitions carry no fields;
       `NamesNonEmpty`) — see `Gql.EndToEnd.Loaded` for kernel-checked witnesses that `load` on
       arbitrary trees needs them;
-    * `rootTypesAreObjects s`: the recorded non-object-root finding (the loader accepts
-      `interface Subscription {…}` / `scalar Query` as root types);
+    * (formerly also `rootTypesAreObjects s`: since the repair "a root operation type must be an object
+      type" an invariant of `load`, `C07_root_types_are_objects`);
     * the semantic side conditions `C08SemanticHyps s d`. -/
 theorem C08_parsed_loaded_iff_spec {sd : SchemaDoc} {s : Schema} (hl : load sd = .ok s)
     (hprel : PreludeDeclared sd) (hks : KindFieldless .scalar sd) (hke : KindFieldless .enum sd) (hn : NamesNonEmpty sd)
-    (hroots : Gql.Spec.rootTypesAreObjects s = true)
     {L : Nat} {inp : Bytes} {d : QueryDoc} (hp : Parser.parseQuery L inp = .ok d) (S : C08SemanticHyps s d) :
     validate c08Rules s d = .ok [] ↔
       ((Spec.specVerdicts s d).filter (fun p => !c08Uncovered.contains p.1)).all (·.2) = true :=
-  C08_default_rules_iff_spec_partial s d (C08Hyps_of_parsed hp (loaded_hyps hl hprel hks hke hn hroots) S)
+  C08_default_rules_iff_spec_partial s d (C08Hyps_of_parsed hp (loaded_hyps hl hprel hks hke hn) S)
 
 /-- the single-rule theorems whose only hypotheses were parser shape, over source texts -/
 theorem C08_UniqueArgumentNames_parsed {L : Nat} {inp : Bytes} {d : QueryDoc} (hp : Parser.parseQuery L inp = .ok d)
@@ -1769,16 +1767,15 @@ theorem C08_UniqueInputFieldNames_parsed {L : Nat} {inp : Bytes} {d : QueryDoc} 
     into `sd`; `sd` loads to `s`; the query source `inp` parses to `d`.  The tree-shape hypotheses of
     `C08_parsed_loaded_iff_spec` are discharged by the schema parser model
     (`Gql.EndToEnd.parseSchemas_treeHyps`).  Left: the prelude is among the sources
-    (`PreludeDeclared sd`), the recorded non-object-root finding (`rootTypesAreObjects s`), and the
-    semantic side conditions `C08SemanticHyps s d`. -/
+    (`PreludeDeclared sd`) and the semantic side conditions `C08SemanticHyps s d`. -/
 theorem C08_sources_iff_spec {Ls : Nat} {srcs : List (Bool × Bytes)} {sd : SchemaDoc} {s : Schema}
     (hsrc : ∀ src ∈ srcs, Lexer.Utf8.valid src.2) (hps : Parser.parseSchemas Ls srcs = .ok sd)
-    (hl : load sd = .ok s) (hprel : PreludeDeclared sd) (hroots : Gql.Spec.rootTypesAreObjects s = true)
+    (hl : load sd = .ok s) (hprel : PreludeDeclared sd)
     {L : Nat} {inp : Bytes} {d : QueryDoc} (hp : Parser.parseQuery L inp = .ok d) (S : C08SemanticHyps s d) :
     validate c08Rules s d = .ok [] ↔
       ((Spec.specVerdicts s d).filter (fun p => !c08Uncovered.contains p.1)).all (·.2) = true :=
   have T := parseSchemas_treeHyps hsrc hps
-  C08_parsed_loaded_iff_spec hl hprel T.scalars T.enums T.names hroots hp S
+  C08_parsed_loaded_iff_spec hl hprel T.scalars T.enums T.names hp S
 
 
 /-! #### `Spec.wellParented` is a consequence of either side -/
@@ -1833,19 +1830,18 @@ structure C08ResidualHyps (s : Schema) (d : QueryDoc) : Prop where
 
 /-- **C08 END TO END, `Spec.wellParented` discharged.**  Schema sources → `ParseSchemas` → `load`; query
     source → `parseQuery`.  The 26 rules report nothing iff the 27 predicates hold.  Hypotheses left:
-    the prelude is among the schema sources, the recorded non-object-root finding
-    (`rootTypesAreObjects s`), and `C08ResidualHyps s d`: the two hazards of SingleFieldSubscriptions
+    the prelude is among the schema sources and `C08ResidualHyps s d`: the two hazards of SingleFieldSubscriptions
     (`selectRoot`; `rootKeys`, a consequence of field merging §5.3.2, the one rule outside `c08Rules`)
     and the recorded finding about VariablesInAllowedPosition (`defaultedLocations`). -/
 theorem C08_sources_iff_spec_wp {Ls : Nat} {srcs : List (Bool × Bytes)} {sd : SchemaDoc} {s : Schema}
     (hsrc : ∀ src ∈ srcs, Lexer.Utf8.valid src.2) (hps : Parser.parseSchemas Ls srcs = .ok sd)
-    (hl : load sd = .ok s) (hprel : PreludeDeclared sd) (hroots : Gql.Spec.rootTypesAreObjects s = true)
+    (hl : load sd = .ok s) (hprel : PreludeDeclared sd)
     {L : Nat} {inp : Bytes} {d : QueryDoc} (hp : Parser.parseQuery L inp = .ok d) (R : C08ResidualHyps s d) :
     validate c08Rules s d = .ok [] ↔
       ((Spec.specVerdicts s d).filter (fun p => !c08Uncovered.contains p.1)).all (·.2) = true :=
   have T := parseSchemas_treeHyps hsrc hps
-  have LH := loaded_hyps hl hprel T.scalars T.enums T.names hroots
-  C08_default_rules_iff_spec_wp s d (loaded_wpSchema hl hprel T.unions hroots) LH.noEmptyTypeName
+  have LH := loaded_hyps hl hprel T.scalars T.enums T.names
+  C08_default_rules_iff_spec_wp s d (loaded_wpSchema hl hprel T.unions) LH.noEmptyTypeName
     (fun hwp => C08Hyps_of_parsed hp LH
       { wellParented := hwp, selectRoot := R.selectRoot, rootKeys := R.rootKeys,
         defaultedLocations := R.defaultedLocations })
@@ -1853,12 +1849,12 @@ theorem C08_sources_iff_spec_wp {Ls : Nat} {srcs : List (Bool × Bytes)} {sd : S
 /-- the same for a schema document given as a tree (the tree-shape hypotheses explicit) -/
 theorem C08_parsed_loaded_iff_spec_wp {sd : SchemaDoc} {s : Schema} (hl : load sd = .ok s)
     (hprel : PreludeDeclared sd) (hks : KindFieldless .scalar sd) (hke : KindFieldless .enum sd)
-    (hku : KindFieldless .union sd) (hn : NamesNonEmpty sd) (hroots : Gql.Spec.rootTypesAreObjects s = true)
+    (hku : KindFieldless .union sd) (hn : NamesNonEmpty sd)
     {L : Nat} {inp : Bytes} {d : QueryDoc} (hp : Parser.parseQuery L inp = .ok d) (R : C08ResidualHyps s d) :
     validate c08Rules s d = .ok [] ↔
       ((Spec.specVerdicts s d).filter (fun p => !c08Uncovered.contains p.1)).all (·.2) = true :=
-  have LH := loaded_hyps hl hprel hks hke hn hroots
-  C08_default_rules_iff_spec_wp s d (loaded_wpSchema hl hprel hku hroots) LH.noEmptyTypeName
+  have LH := loaded_hyps hl hprel hks hke hn
+  C08_default_rules_iff_spec_wp s d (loaded_wpSchema hl hprel hku) LH.noEmptyTypeName
     (fun hwp => C08Hyps_of_parsed hp LH
       { wellParented := hwp, selectRoot := R.selectRoot, rootKeys := R.rootKeys,
         defaultedLocations := R.defaultedLocations })
